@@ -132,7 +132,7 @@ pub fn replay(args: &[String], out: &mut Out) {
 
 fn keysource_of(v: &Value) -> (Fingerprint, DerivationPath) {
     let fp = if v["fp"] == "F1" { Fingerprint::from([1, 2, 3, 4]) } else { Fingerprint::from([9, 8, 7, 6]) };
-    let path: Vec<ChildNumber> = v["path"].as_array().unwrap().iter().map(|x| ChildNumber::from_normal_idx(x.as_u64().unwrap() as u32).unwrap()).collect();
+    let path: Vec<ChildNumber> = v["path"].as_array().unwrap().iter().map(|x| { let n = x.as_u64().unwrap() as u32; if n >= 100 { ChildNumber::from_hardened_idx(n - 100).unwrap() } else { ChildNumber::from_normal_idx(n).unwrap() } }).collect();
     (fp, DerivationPath::from(path))
 }
 
